@@ -39,7 +39,8 @@ impl<V: Copy> NameMap<V> {
     #[verifier::external_body] pub fn get_copied(&self, k: &String) -> (r: Option<V>) { unimplemented!() }     // m.get(k) matched through `Some(&v)`
 }
 // typer::name_resolution::ResolutionContext: the fields the identifier-use fragment reads
-pub struct ResolutionContext<'a> { pub current_package: &'a str, pub def_names: &'a NameMap<hir::DefId>, pub builtin_names: &'a NameMap<hir::BuiltinId> }
+#[verifier::external_body] pub struct ImportSet { _p: u64 }
+pub struct ResolutionContext<'a> { pub current_package: &'a str, pub def_names: &'a NameMap<hir::DefId>, pub builtin_names: &'a NameMap<hir::BuiltinId>, pub imports: &'a ImportSet }
 #[verifier::external_body] pub fn full_def_name(package: &str, name: &str) -> (r: String) { unimplemented!() }
 pub trait VClone: Sized { fn vclone(&self) -> (r: Self) ensures r == *self; }
 impl VClone for String { #[verifier::external_body] fn vclone(&self) -> (r: Self) { unimplemented!() } }
@@ -152,3 +153,28 @@ pub proof fn lemma_names_push(e: Seq<(ast::AstIdent, hir::LocalId)>, x: (ast::As
 {
     assert(env_names(e.push(x)) =~= env_names(e).push(x.0.0@));
 }
+
+// ---- resolve_fn: every parameter is a binder of its own ----
+impl HirTable { pub uninterp spec fn issued(&self) -> Set<hir::LocalId>; }             // the local ids handed out so far
+#[verifier::external_body] pub struct TParamSet { _p: u64 }
+#[verifier::external_body] pub fn type_param_set(generics: &Vec<ast::AstIdent>) -> (r: TParamSet) { unimplemented!() }
+#[verifier::external_body] pub fn string_as_str(s: &String) -> (r: &str) ensures r@ == s@ { unimplemented!() }
+impl NameResolution {
+    // HirTable::fresh_local: an id that has not been handed out before
+    #[verifier::external_body]
+    pub fn fresh_name(&self, name: &str, hir_table: &mut HirTable) -> (r: hir::LocalId)
+        ensures !old(hir_table).issued().contains(r), final(hir_table).issued() == old(hir_table).issued().insert(r),
+    { unimplemented!() }
+    #[verifier::external_body]
+    pub fn lower_type_expr(&mut self, ty: &ast::TypeExpr, tparams: &TParamSet, current_package: &str, imports: &ImportSet) -> (r: hir::TypeExpr) { unimplemented!() }
+    #[verifier::external_body] pub fn ice(&mut self, msg: String) { unimplemented!() }
+}
+#[verifier::external_body] pub fn rt_msg() -> (r: String) { unimplemented!() }
+// the parameters of a function, as binders: one fresh id each (also for two parameters of the same name), entered into the
+// environment in order (so a use sees the LAST parameter of that name)
+pub open spec fn params_bound(params: Seq<(ast::AstIdent, ast::TypeExpr)>, env: Seq<(ast::AstIdent, hir::LocalId)>, out: Seq<(hir::LocalId, hir::TypeExpr)>) -> bool {
+    out.len() == params.len() && env.len() == params.len()
+    && (forall|i: int| 0 <= i < params.len() ==> (#[trigger] env[i]).0 == params[i].0 && env[i].1 == out[i].0)
+    && (forall|i: int, j: int| 0 <= i < j < out.len() ==> (#[trigger] out[i]).0 != (#[trigger] out[j]).0)
+}
+
